@@ -24,3 +24,23 @@ CHECKS["C13"] = {
         {"name": "TestPlannerInterval", "quick": 20000, "thorough": {"checks": 200000, "shards": 4}},
     ],
 }
+
+CHECKS["C01"] = {
+    "pkg": "./c01/",
+    "level": "fault_enumeration",
+    "technique": "stateful property-based testing (rapid state machine) with crash-image fault injection at every intercepted file-system operation, reference-model oracle",
+    "rule": ("rapid state machine over one kv store (1-3 families, union merger): createFamily/flush(Add|StreamWriter, sequences, empty)/compact/"
+             "deleteObsolete+cache cleanup/reopen; a directory image is taken before and after every intercepted FS operation (table create/write/close, "
+             "manifest create/write/sync/close, CURRENT tmp write + rename, OPTIONS write, mkdir, remove, listDir) of every operation; each recovered image "
+             "must equal the model before or after the single operation in flight, then takes new flushes+compaction with fresh file numbers. "
+             "non-trivial = image inside an operation (any intercepted FS op other than the leading listDir); distinct = (history, image tag) hash"),
+    "level_text": ("Fault enumeration over generated histories: in the thorough tier every intercepted crash point of every generated history is recovered through the "
+                   "production open path (quick tier: a generated sample of 10 per crash action) and compared with an independent model; this matches the property's "
+                   "quantifier (every history x every point between two FS operations) up to the sampled set of histories."),
+    "level_note": ("Process-crash model: an image is a copy of the directory at the hook (user-space buffers lost, kernel state kept). FS operations inside ltoml.EncodeToml and the file lock "
+                   "are not split further. Power-loss reordering is out of scope. Torn (short) writes are not generated in this check."),
+    "assumptions": ["crash = process death, not power loss", "tmpfs scratch directory", "rollup bookkeeping crash points are covered by C04's machinery, not here"],
+    "tests": [
+        {"name": "TestCrashRecovery", "quick": 60, "thorough": {"checks": 150, "shards": 16}},
+    ],
+}
